@@ -244,29 +244,46 @@ def int_parse(chars, radix, bits=64):
             d = z3.If(z3.ULT(d, radix), d, bv(99, 32))
         return d
 
-    W = 160
+    def to_digits(v):
+        out = []
+        while v:
+            out.append(v % radix)
+            v //= radix
+        return list(reversed(out)) or [0]
 
-    def magnitude(cs):
-        acc = bv(0, W)
-        okd = []
-        for c in cs:
-            d = digit_val(c)
-            okd.append(z3.ULT(d, radix))
-            acc = acc * radix + z3.ZeroExt(W - 32, d)
-        return z3.And(*okd) if okd else z3.BoolVal(False), acc
+    def lex_le(ds, bound):
+        """numeric value of the digit vector ds <= bound, by comparing equal-length digit strings (bound zero-padded)"""
+        b = to_digits(bound)
+        if len(ds) < len(b):
+            return z3.BoolVal(True)
+        b = [0] * (len(ds) - len(b)) + b
+        r = z3.BoolVal(True)
+        for d, bd in reversed(list(zip(ds, b))):
+            r = z3.If(z3.ULT(d, bd), True, z3.If(z3.UGT(d, bd), False, r))
+        return r
+
+    def parse(cs):
+        ds = [digit_val(c) for c in cs]
+        okd = z3.And(*[z3.ULT(d, radix) for d in ds]) if ds else z3.BoolVal(False)
+        acc = bv(0, bits)
+        for d in ds:
+            acc = acc * radix + z3.ZeroExt(bits - 32, d) if bits > 32 else acc * radix + z3.Extract(bits - 1, 0, d)
+        return okd, ds, acc
 
     neg = chars[0] == ord('-')
     plus = chars[0] == ord('+')
-    v_all, m_all = magnitude(chars)
+    v_all, d_all, a_all = parse(chars)
     if n >= 2:
-        v_rest, m_rest = magnitude(chars[1:])
+        v_rest, d_rest, a_rest = parse(chars[1:])
     else:
-        v_rest, m_rest = z3.BoolVal(False), bv(0, W)
+        v_rest, d_rest, a_rest = z3.BoolVal(False), [], bv(0, bits)
     signed_form = z3.Or(neg, plus)
     valid = z3.If(signed_form, v_rest, v_all)
-    mag = z3.If(signed_form, m_rest, m_all)
-    fits = z3.If(neg, z3.ULE(mag, bv(2 ** (bits - 1), W)), z3.ULE(mag, bv(2 ** (bits - 1) - 1, W)))
-    val = z3.If(neg, -z3.Extract(bits - 1, 0, mag), z3.Extract(bits - 1, 0, mag))
+    # the parsed magnitude fits iff it is <= MAX (or <= 2^(bits-1) for a negative literal): compared digit-wise, no wide arithmetic;
+    # the value is accumulated in wrapping `bits`-bit arithmetic, which is exact whenever it fits
+    fits = z3.If(neg, lex_le(d_rest, 2 ** (bits - 1)) if d_rest else z3.BoolVal(False),
+                 z3.If(plus, lex_le(d_rest, 2 ** (bits - 1) - 1) if d_rest else z3.BoolVal(False), lex_le(d_all, 2 ** (bits - 1) - 1)))
+    val = z3.If(neg, -a_rest, z3.If(plus, a_rest, a_all))
     return z3.simplify(valid), z3.simplify(fits), z3.simplify(val)
 
 
